@@ -1,6 +1,8 @@
 package main
 
 import (
+	"fmt"
+
 	"golang.org/x/tools/go/ssa"
 )
 
@@ -189,19 +191,113 @@ func init() {
 	})
 }
 
+// panicSites: explicit panics under a root set; each must be an unreachable switch default
+// (proved by TAB) or a reviewed exception.
+var panicExceptions = map[string]string{
+	"jsonata.lt": "lt panics for operands that are not both numbers or both strings; its callers (evalComparisonOperator after the type gate, makeLessFunc after buildSortInfo's type bookkeeping, lte) establish that by value reasoning the analysis does not model: listed, not decided",
+}
+
+func runPanics(c *Ctx, r *Result, rule string, reach *Reach, tabProved map[string]bool) int {
+	n := 0
+	for _, f := range srcFuncsIn(reach) {
+		if f.Name() == "panicf" {
+			continue
+		}
+		ord := 0
+		for _, ins := range instrsIn(f) {
+			isPanic := false
+			switch ins := ins.(type) {
+			case *ssa.Panic:
+				isPanic = true
+			case ssa.CallInstruction:
+				if callee := ins.Common().StaticCallee(); callee != nil && callee.Name() == "panicf" {
+					isPanic = true
+				}
+			}
+			if !isPanic {
+				continue
+			}
+			ord++
+			n++
+			o := Obligation{Rule: rule, Key: fmt.Sprintf("%s:panic#%d", shortFn(f), ord), Fn: shortFn(f), Pos: c.W.Pos(ins.Pos()), Nontrivial: true}
+			switch {
+			case tabProved[shortFn(f)]:
+				o.Verdict, o.Reason = Discharged, "the panic is the default of a dispatch switch that TAB shows exhaustive over everything the parser can produce"
+			case panicExceptions[shortFn(f)] != "":
+				o.Verdict, o.Reason = Exception, panicExceptions[shortFn(f)]
+			default:
+				o.Verdict, o.Reason = Finding, "an explicit panic is reachable from the root and is not covered by an exhaustiveness argument"
+				o.Path = reach.Path(f)
+			}
+			r.Add(o)
+		}
+	}
+	return n
+}
+
 func init() {
 	register(&propDef{
-		ID: "LOOPTEST", Explanation: "wip", Rule: "wip",
+		ID: "C09",
+		Explanation: "Decides the crash/hang classes that are visible in the shape of the code, over everything reachable from Eval in the module call graph: (NF) every kind-specific reflect accessor gets a provably resolved receiver (138 sites, interprocedural); (TAB) eval's type switch covers every node type the parser can emit and every operator-enum switch is exhaustive, so the 'unexpected node'/'unrecognised operator' panics are unreachable; (PANIC) every explicit panic under Eval is one of those or a listed exception; (LOOP) every loop under Eval has a recognised variant (range, counted towards an invariant bound, shrinking-suffix consumer, positive multiplicative scaling, or a reviewed entry) and every recursive SCC a reviewed structural descent; (GUARD) integer / and % have a dominating non-zero test, strconv.FormatInt bases are confined to [2,36], strings.Repeat counts are non-negative; (HASH) no interface-keyed map is indexed with a dynamically typed value. NOT decided: IsValid/CanInterface guards beyond these rules, type-assertion safety, nil interfaces used as values, reflect.Set on zero Values, stack depth, lt's own panic.",
+		Rule:        commonRule,
+		Fixtures:    []string{"nf", "guard", "hash", "tab", "loop"},
 		Run: func(c *Ctx, r *Result) {
-			var fns []*ssa.Function
-			for _, f := range c.G.Funcs {
-				fns = append(fns, f)
+			n := runNF(c, c.G, r, "NF", srcFuncsIn(c.REval), c.REval)
+			r.RequireMin("NF accessor sites under Eval", n, 130)
+			runEvalDispatch(c, r, "TAB")
+			m := runEnumSwitches(c, r, "TAB", []string{"jsonata", "jlib", "jxpath", "jtypes"}, nil)
+			r.RequireMin("TAB enum switches with a panicking/erroring default", m, 4)
+			tabProved := map[string]bool{"jsonata.eval": true, "jsonata.evalNumericOperator": true, "jsonata.evalComparisonOperator": true, "jsonata.evalBooleanOperator": true}
+			p := runPanics(c, r, "PANIC", c.REval, tabProved)
+			r.RequireMin("PANIC explicit panic sites under Eval", p, 5)
+			counts := runLOOP(c, r, "LOOP", srcFuncsIn(c.REval), c.REval)
+			total := 0
+			for _, v := range counts {
+				total += v
 			}
-			counts := runLOOP(c, r, "LOOP", fns, nil)
-			runRecursion(c, r, "REC", c.REval)
-			runRecursion(c, r, "REC", c.RCompile)
-			r.Note("classes: %v", counts)
-			runAcceptPredicates(c, r, "LOOP")
+			r.RequireMin("LOOP loops under Eval", total, 90)
+			r.Note("LOOP classes under Eval: %v", counts)
+			k := runRecursion(c, r, "REC", c.REval)
+			r.RequireMin("REC recursive SCCs under Eval", k, 8)
+			g := runGUARD(c, r, "GUARD", srcFuncsIn(c.REval), c.REval)
+			r.RequireMin("GUARD partial operations under Eval", g, 9)
+			h := runHASH(c, r, "HASH", srcFuncsIn(c.REval), c.REval)
+			r.Count("HASH interface-keyed map accesses under Eval", h)
+			r.Assume("user-defined JSONata functions are not unboundedly recursive (excluded by the property)")
+			r.Assume("Go values handed to Eval are acyclic (JSON-decoded data); jtypes.Resolve follows pointer chains")
+			r.Assume("runes in a DecimalFormat are valid (utf8.RuneLen >= 1), as updateDecimalFormat enforces for user-supplied options")
+		},
+	})
+	register(&propDef{
+		ID: "C18",
+		Explanation: "Decides: (LOOP) every loop reachable from $formatNumber/$formatBase/$round/$number/$string has a recognised variant — in particular FormatNumber's mantissa scaling loop multiplies a value that is provably positive on entry (math.Abs of a value tested non-zero), the clause whose absence made $formatNumber(0, \"0.0e0\") hang; (FIN) $power, $sqrt and $round cannot return ±Inf or NaN (two-sided IsInf/IsNaN guards dominate the returns; Sqrt's argument is tested non-negative); (GUARD) FormatBase's radix test admits exactly [2,36], strconv.FormatInt's domain, and dominates the call; strings.Repeat counts in the picture renderer are non-negative. NOT decided: rounding, shortest form, picture rendering as values.",
+		Rule:        commonRule,
+		Fixtures:    []string{"fin", "guard", "loop"},
+		Run: func(c *Ctx, r *Result) {
+			var roots []*ssa.Function
+			for _, n := range []string{"jlib.FormatNumber", "jlib.FormatBase", "jlib.Round", "jlib.Number", "jlib.String", "jlib.Power", "jlib.Sqrt", "jsonata.round"} {
+				if f := c.mustFn(r, n); f != nil {
+					roots = append(roots, f)
+				}
+			}
+			reach := c.G.Reach(roots...)
+			counts := runLOOP(c, r, "LOOP", srcFuncsIn(reach), reach)
+			r.Note("LOOP classes under the number functions: %v", counts)
+			if counts["M"] < 1 {
+				r.LoseAnchor("LOOP: the multiplicative scaling loop of FormatNumber was not found (class M count %d)", counts["M"])
+			}
+			total := 0
+			for _, v := range counts {
+				total += v
+			}
+			r.RequireMin("LOOP loops under the number functions", total, 18)
+			runRecursion(c, r, "REC", reach)
+			e := newFIN(c, c.G)
+			k := runFINBoxed(c, e, r, "FIN", map[string]bool{"jlib.Power": true, "jlib.Sqrt": true, "jsonata.round": true, "jlib.Number": true})
+			r.RequireMin("FIN success returns of the number built-ins", k, 6)
+			g := runGUARD(c, r, "GUARD", srcFuncsIn(reach), reach)
+			r.RequireMin("GUARD partial operations under the number functions", g, 5)
+			r.Assume("runes in a DecimalFormat are valid (utf8.RuneLen >= 1), as updateDecimalFormat enforces for user-supplied options")
 		},
 	})
 }
